@@ -16,6 +16,7 @@ from .decl import Decl
 VERIF = '/verif'
 REPO = os.environ.get('VERIF_REPO', '/repo')
 WORK = os.environ.get('VERIF_WORK', os.path.join(VERIF, 'work'))
+TARGET = os.environ.get('VERIF_TARGET', os.path.join(VERIF, 'target'))
 PRELUDE = open(os.path.join(VERIF, 'vf', 'verus_prelude.rs')).read()
 
 ASSUMPTION_SCAN = {}
@@ -101,7 +102,7 @@ def build_dumps(decls: List[Decl], tag: str, features=()) -> DumpResult:
     env = dict(ENV)
     env['RUSTFLAGS'] = '--cfg nutype_verif'
     env['NUTYPE_VERIF_DUMP_DIR'] = dump_dir
-    env['CARGO_TARGET_DIR'] = os.path.join(VERIF, 'target', 'cat')
+    env['CARGO_TARGET_DIR'] = os.path.join(TARGET, 'cat')
     t0 = time.time()
     for attempt in range(4):
         text, spans = _lib_rs(active)
